@@ -584,6 +584,17 @@ func SetValue(dest, v reflect.Value) {
 	case reflect.Uint, reflect.Uint8, reflect.Uint16, reflect.Uint32, reflect.Uint64:
 		dest.SetUint(EnsureUint64(v.Interface()))
 		return
+	case reflect.String:
+		// a declared string type (type Label string) as list element or map key / value
+		if v.Kind() == reflect.String {
+			dest.SetString(v.String())
+			return
+		}
+	case reflect.Bool:
+		if v.Kind() == reflect.Bool {
+			dest.SetBool(v.Bool())
+			return
+		}
 	case reflect.Map:
 		// a map read without type information is converted to the destination's map type
 		if v.Kind() == reflect.Map && !v.Type().AssignableTo(dest.Type()) {
